@@ -77,7 +77,7 @@ func Lookalikes() []Lookalike {
 		// a struct type with the same package name and type name as a local one, other field order
 		la("same_named_struct", map[string]string{
 			"la_same_named_struct/lib/config/l.go": "package config\n\ntype Limits struct {\n\tLo uint64\n\tHi uint64\n}\n\nfunc Span(l Limits) uint64 {\n\treturn l.Hi - l.Lo\n}\n",
-			"la_same_named_struct/a.go":            "package config\n\nimport lib \"lamod/la_same_named_struct/lib/config\"\n\ntype Limits struct {\n\tHi uint64\n\tLo uint64\n}\n\nfunc F(x uint64, y uint64) uint64 {\n\tmine := Limits{Hi: x + 100, Lo: y}\n\ttheirs := lib.Limits{Lo: y, Hi: x + 7}\n\treturn (mine.Hi - mine.Lo) + lib.Span(theirs)*1000 + theirs.Hi\n}\n",
+			"la_same_named_struct/a.go":            "package config\n\nimport \"lamod/la_same_named_struct/lib/config\"\n\ntype Limits struct {\n\tHi uint64\n\tLo uint64\n}\n\nfunc F(x uint64, y uint64) uint64 {\n\tmine := Limits{Hi: x + 100, Lo: y}\n\ttheirs := config.Limits{Lo: y, Hi: x + 7}\n\treturn (mine.Hi - mine.Lo) + config.Span(theirs)*1000 + theirs.Hi\n}\n",
 		}),
 		la("cross_pkg_struct", map[string]string{
 			"la_cross_pkg_struct/store/l.go": "package store\n\nconst Limit uint64 = 10\n\ntype Entry struct {\n\tKey uint64\n\tVal uint64\n}\n\nfunc (e Entry) Sum() uint64 {\n\treturn e.Key + e.Val\n}\n\nfunc Mk(k uint64) Entry {\n\treturn Entry{Key: k, Val: Limit}\n}\n\nfunc Bump(e *Entry) {\n\te.Val = e.Val + 1\n}\n",
